@@ -6,6 +6,7 @@ package main
 // the typed config dump is skipped (the check reports the broken tie).
 
 import (
+	corev3 "github.com/envoyproxy/go-control-plane/envoy/config/core/v3"
 	discovery "github.com/envoyproxy/go-control-plane/envoy/service/discovery/v3"
 
 	"istio.io/istio/pilot/pkg/model"
@@ -22,6 +23,10 @@ func extProcessDelta(s *pxds.DiscoveryServer, req *discovery.DeltaDiscoveryReque
 
 func extPushDelta(s *pxds.DiscoveryServer, con *pxds.Connection, req *model.PushRequest) error {
 	return nil
+}
+
+func extConnect(s *pxds.DiscoveryServer, node *corev3.Node, delta bool) (*pxds.Connection, *model.Proxy, error) {
+	return nil, nil, nil
 }
 
 func extDumpTypes(s *pxds.DiscoveryServer, con *pxds.Connection, types []string) {}
